@@ -41,6 +41,9 @@ type Options struct {
 	Cache cache.Cache
 	// WrapCache, when set, wraps the cache (configured or overriding) before it is handed to the services.
 	WrapCache func(cache.Cache) cache.Cache
+	// Mutate may adjust the loaded configuration before the service is wired (used to reach mechanisms the
+	// configuration schema cannot express).
+	Mutate func(*config.Configuration)
 	// Watcher overrides the no-op file watcher.
 	Watcher watcher.Watcher
 	Logger  *zerolog.Logger
@@ -78,6 +81,9 @@ func Build(o Options) (*World, error) {
 	conf, err := config.NewConfiguration("VERIFNOENV_", config.ConfigurationPath(path))
 	if err != nil {
 		return nil, fmt.Errorf("configuration: %w", err)
+	}
+	if o.Mutate != nil {
+		o.Mutate(conf)
 	}
 	return BuildFromConfig(conf, o)
 }
